@@ -162,6 +162,13 @@ Definition valid_cfg_impl (envW envS : option Z) (G : glob -> Z) : bool :=
 Definition G0 : glob -> Z := fun g =>
   if Nat.eqb g GWidth then DEFAULT_WIDTH else if Nat.eqb g GScale then DEFAULT_SCALE else 0.
 
+(* the API calls of the spec skeleton: a run of any shape / environment setting, or a loader that may raise *)
+Inductive api_call_spec : prog -> Prop :=
+| AC_run : forall n fb envW envS ss nfinal save, api_call_spec (run_spec n fb envW envS (exec_queries ss nfinal save))
+| AC_validate : api_call_spec validate_prog.
+
+Definition body1 : prog := exec_queries [mkStmt [LoadDf] [true]] 0 false.
+
 (* what the harness evaluates for one observed fault position: (outcome, live resources, step trace oldest first) *)
 Definition observe_run (k : option nat) (p : prog) (G : glob -> Z) : outcome * list res * list label :=
   let r := exec k p (init G) in (fst r, live (snd r), rev (trace (snd r))).
